@@ -22,4 +22,5 @@ CONSTANTS
   SlackLate = 0
   SlackSched = 0
 INVARIANTS DumpInv
+ACTION_CONSTRAINT DataOnlyAfterTargetFin
 CHECK_DEADLOCK FALSE
